@@ -797,6 +797,18 @@ def execute(case):
     sched = expand_schedules(case)
     crossed_native = 0
     fired_total = 0
+    work_total = 0
+    fired_forms = {}
+    site_form = {}
+    site_ctx = {}
+
+    def _visit(st, path):
+        if st["t"] == "d":
+            site_form[st["k"]] = st["form"]
+            site_ctx[st["k"]] = path
+    for f in prog["funcs"]:
+        _walk(f["b"], _visit)
+    reach = set()
     for fs in sched:
         try:
             mo = model(prog, fs)
@@ -806,6 +818,19 @@ def execute(case):
         runs += 1
         vs = compare(mo, en, prog)
         fired_total += len(mo["fired"])
+        work_total += en.get("work", 0)
+        for k in mo["fired"]:
+            fm = site_form.get(k, "?")
+            fired_forms[fm] = fired_forms.get(fm, 0) + 1
+            pth = site_ctx.get(k, ())
+            if any(x.startswith("native") for x in pth):
+                reach.add("throw-inside-native-callback")
+            if any(x == "try.f" for x in pth):
+                reach.add("throw-while-finally-runs")
+            if any(x.startswith("try.c") for x in pth):
+                reach.add("throw-from-catch-clause")
+        if mo["outcome"][0] == "uncaught":
+            reach.add("uncaught-to-embedder")
         digests.append(sha1([fs, en["log"], en["kind"], en["msg"]]))
         if vs:
             for x in vs:
@@ -813,7 +838,8 @@ def execute(case):
                 viol.append(x)
         per.append({"faults": fs, "ok": not vs})
     res = {"runs": runs, "violations": viol[:50], "n_violating": len({tuple(x["schedule"]) for x in viol}),
-           "schedules": len(sched), "fired": fired_total, "digest": sha1(digests), "work": 0,
+           "schedules": len(sched), "fired": fired_total, "digest": sha1(digests), "work": work_total,
+           "fired_forms": fired_forms, "reach": sorted(reach),
            "first_bad": (viol[0]["schedule"] if viol else None)}
     return res
 
@@ -1148,8 +1174,14 @@ ASSUMPTIONS = [
 
 
 def stats(case, res):
-    return {"schedule_runs": res["runs"], "violating_schedules": res["n_violating"], "faults_fired": ["throw"] * 0,
-            "throws_fired": res["fired"], "profile": case["prog"]["profile"]}
+    feats = [f for f in features(case) if f.split(":")[0] in ("native", "loop", "try", "switch", "lblock", "arrow-callback")
+             or "-in-try" in f]
+    out = {"schedule_runs": res["runs"], "violating_schedules": res["n_violating"],
+           "throws_fired": res["fired"], "profile": case["prog"]["profile"],
+           "faults_fired": [], "reach_probes": list(res.get("reach", [])), "program_features": feats}
+    for fm, n in (res.get("fired_forms") or {}).items():
+        out["faults_fired"] += [fm] * n
+    return out
 
 
 def sample_view(case):
